@@ -135,6 +135,37 @@ def complexify(rng, mps):
     return mps
 
 
+# ------------------------------------------------------------------------------------------ bond gauge
+def bond_gauge(rng, mp, cplx=None, bond=None):
+    """Insert G G^-1 on one inner bond (G invertible, well conditioned, block diagonal with respect to the bond's labels):
+    the represented object and the labels stay the same, the tensors next to the bond are no isometries any more.
+    Returns the bond index or None (one-site chain)."""
+    n = mp.site_num
+    if n < 2:
+        return None
+    j = int(rng.integers(1, n)) if bond is None else bond
+    d = int(mp.bond_dims[j])
+    if cplx is None:
+        cplx = bool(rng.random() < 0.5)
+    if cplx:
+        mp.to_complex(inplace=True)
+    labels = np.asarray(mp.qn[j]).reshape(d, -1)
+    g = np.zeros((d, d), dtype=complex if cplx else float)
+    uniq = np.unique(labels, axis=0)
+    for u in uniq:
+        idx = np.where(np.all(labels == u, axis=1))[0]
+        m = len(idx)
+        a = rng.normal(size=(m, m)) + (1j * rng.normal(size=(m, m)) if cplx else 0)
+        q, _ = np.linalg.qr(a)
+        g[np.ix_(idx, idx)] = q * rng.uniform(0.5, 2.0, size=m)[None, :]
+    ginv = np.linalg.inv(g)
+    a = np.asarray(mp[j - 1].array)
+    b = np.asarray(mp[j].array)
+    mp[j - 1] = np.tensordot(a, g, axes=([a.ndim - 1], [0]))
+    mp[j] = np.tensordot(ginv, b, axes=([1], [0]))
+    return j
+
+
 # ------------------------------------------------------------------------------------------ gauge history
 GAUGE_OPS = ["ensure_left", "ensure_right", "canonicalise_twice", "lossless_compress", "move_qnidx", "to_complex",
              "phase_rotation", "coeff", "none"]
